@@ -234,4 +234,61 @@ theorem space_conditions_default (b : Block) (s : Space) (h : spaceOf b = .ok s)
             exact ⟨rfl, rfl, hf⟩
           all_goals cases h
 
+/-! ### vertex lists (polygons, shades given by vertices) -/
+
+/-- **vertices come back in their written order**: when the attributes `V(start)`, `V(start+1)`, … hold the texts `vs` (each a valid
+    point) and the next name is absent, the reader returns exactly those points, in numeric order of their names — however the
+    attribute map itself is ordered (as text, `V10` sorts before `V2`) -/
+theorem vertices_in_order (a : Attrs) (dim : Nat) (vs : List Str) (ps : List (List TNum)) (start fuel : Nat)
+    (hlen : vs.length = ps.length) (hfuel : vs.length < fuel)
+    (hv : ∀ k (hk : k < vs.length), getStr a ("V" ++ toString (start + k)) = some vs[k] ∧
+      pointFromStr dim vs[k] = some (ps[k]'(hlen ▸ hk)))
+    (hend : getStr a ("V" ++ toString (start + vs.length)) = none) :
+    vertices a dim fuel start = .ok ps := by
+  induction vs generalizing ps start fuel with
+  | nil =>
+    have hps : ps = [] := by
+      cases ps with
+      | nil => rfl
+      | cons _ _ => simp at hlen
+    subst hps
+    cases fuel with
+    | zero => simp at hfuel
+    | succ f =>
+      simp only [List.length_nil, Nat.add_zero] at hend
+      simp only [vertices, hend]
+  | cons v t ih =>
+    cases ps with
+    | nil => simp at hlen
+    | cons p pt =>
+      cases fuel with
+      | zero => simp at hfuel
+      | succ f =>
+        have h0 := hv 0 (by simp)
+        simp only [Nat.add_zero, List.getElem_cons_zero] at h0
+        have hrest := ih pt (start + 1) f (by simpa using hlen) (by simp only [List.length_cons] at hfuel; omega)
+          (by
+            intro k hk
+            have := hv (k + 1) (by simp only [List.length_cons]; omega)
+            simp only [List.getElem_cons_succ] at this
+            have e : start + 1 + k = start + (k + 1) := by omega
+            rw [e]
+            exact this)
+          (by
+            have e : start + 1 + t.length = start + (v :: t).length := by simp only [List.length_cons]; omega
+            rw [e]; exact hend)
+        simp only [vertices, h0.1, h0.2, hrest]
+
+/-- a shade given by vertices carries them in that order -/
+theorem shading_vertices_written (b : Block) (t r : TNum) (vs : List Str) (ps : List (List TNum))
+    (ht : reqNum b.attrs "TRAN" = .ok t) (hr : reqNum b.attrs "REFL" = .ok r) (hx : getNum b.attrs "X" = none)
+    (hlen : vs.length = ps.length) (hfuel : vs.length ≤ b.attrs.length)
+    (hv : ∀ k (hk : k < vs.length), getStr b.attrs ("V" ++ toString (1 + k)) = some vs[k] ∧
+      pointFromStr 3 vs[k] = some (ps[k]'(hlen ▸ hk)))
+    (hend : getStr b.attrs ("V" ++ toString (1 + vs.length)) = none) :
+    shadingOf b = .ok { name := b.name, tran := t, refl := r, rect := none, verts := some ps } := by
+  unfold shadingOf
+  simp only [ht, hr, hx, Option.isSome_none, Bool.false_eq_true, if_false]
+  rw [vertices_in_order b.attrs 3 vs ps 1 (b.attrs.length + 1) hlen (by omega) hv hend]
+
 end Cte.Props.C18Typed
